@@ -29,13 +29,24 @@ class CallMixin:
         args = []
         for a in node.args:
             if isinstance(a, ast.Starred):
-                args.extend(self.iterate_concrete(self.eval(a.value, frame)))
+                sv = self.eval(a.value, frame)
+                try:
+                    args.extend(self.iterate_concrete(sv))
+                except E.Unsupported:
+                    if not self.is_havocked_callee(fn):
+                        raise
+                    args.append(VAny(z3.Const(self.run.fresh_name("*args"), AnySort), "starargs"))
             else:
                 args.append(self.eval(a, frame))
         kwargs = {}
         for kw in node.keywords:
             if kw.arg is None:
                 d = self.eval(kw.value, frame)
+                if isinstance(d, VGen):
+                    if not self.is_havocked_callee(fn):
+                        raise E.Unsupported("** of symbolic comprehension")
+                    kwargs["**"] = VAny(z3.Const(self.run.fresh_name("**kwargs"), AnySort), "starkwargs")
+                    continue
                 r = self.run.rec(d.oid) if isinstance(d, VRef) and d.kind == "dict" else None
                 if r is None or not r.concrete:
                     return self.call_star_kwargs(fn, args, kwargs, d, node, frame)
@@ -47,8 +58,16 @@ class CallMixin:
                 kwargs[kw.arg] = self.eval(kw.value, frame)
         return self.call_value(fn, args, kwargs, node, frame)
 
-    def call_star_kwargs(self, fn, args, kwargs, d, node, frame):
+    def is_havocked_callee(self, fn):
         if isinstance(fn, VCallback) or (isinstance(fn, VBound) and isinstance(fn.recv, VCallback)):
+            return True
+        if isinstance(fn, VBound) and isinstance(fn.recv, VRef) and fn.recv.kind == "obj" and self.contract is not None:
+            cls = self.run.rec(fn.recv.oid).cls
+            return any(f"{c}.{fn.name}" in self.contract.callbacks for c in [cls] + self.exc_bases_cls(cls))
+        return False
+
+    def call_star_kwargs(self, fn, args, kwargs, d, node, frame):
+        if self.is_havocked_callee(fn):
             kwargs["**"] = d
             return self.call_value(fn, args, kwargs, node, frame)
         raise E.Unsupported("** of symbolic mapping")
